@@ -34,8 +34,10 @@ ASSUMPTIONS = [
     'key permutation is applied to mappings that the original load turned '
     'into class instances (read off the returned value); in failing documents '
     'every mapping is permuted',
-    'unrelated classes have fresh names that no document tag mentions, no '
-    'base in the model and at least one required parameter with a fresh name',
+    'unrelated classes have fresh names, no base in the model and at least '
+    'one required parameter with a fresh name; documents may carry tags that '
+    'name them (they are admissible at no position of the model, so such a '
+    'tag is an unknown tag before and a conflicting or ignored tag after)',
 ]
 
 
@@ -75,7 +77,8 @@ def buf_type(t, changed):
     inner = [buf_type(x, changed) for x in t[1:]]
     if t[0] == 'union' and 'bool' in inner and 'buf' not in inner:
         changed[0] = True
-        inner.append('buf')
+        # directly after bool, as the documentation writes it
+        inner.insert(inner.index('bool') + 1, 'buf')
     if t[0] == 'opt' and inner[0] == 'bool':
         changed[0] = True
         return ['union', 'bool', 'none', 'buf']
@@ -312,6 +315,7 @@ def shard(ctx):
                          rng.getrandbits(32))
     lone_class_cases(ctx, rng, ctx.budget(600, 8000))
     no_class_cases(ctx, rng, ctx.budget(1500, 20000))
+    bool_union_cases(ctx, rng)
 
 
 def lone_class_cases(ctx, rng, n):
@@ -354,6 +358,22 @@ def lone_class_cases(ctx, rng, n):
         except (V.NoValue, RecursionError):
             continue
         inner = D.spec_of(D.proj(mm, v))
+        if c.get('extra'):
+            # an extra attribute holding an untagged collection with tagged
+            # nodes further down, some naming the class registered later
+            from vlib import plain as P
+            from checks import c04
+            n_out = [0]
+            sub = c04.decorate(D.spec_of(P.rand_plain(
+                rng, depth=2, classes=('look',), finite=True, dates=False)),
+                rng, ['ZUnrelatedA', 'ZUnrelatedA', c['name']], n_out)
+            wrapped = ['seq', [sub, ['map', [[N_s('zunrelated_a_id'),
+                                               ['s', S_INT, '1']]],
+                                     '!ZUnrelatedA']], S_SEQ]
+            node = inner[:1] + [inner[1] + [[N_s('zz_extra_key'), wrapped]]] \
+                + inner[2:]
+            run_case(ctx, lone, node, rng.choice(['block', 'flow']),
+                     rng.getrandbits(32), only='extra_classes')
         for tag in (None, '!Nonsense', '!' + c['name'], '!ZUnrelatedA',
                     '!Path'):
             node = inner if tag is None else inner[:2] + [tag]
@@ -364,6 +384,45 @@ def lone_class_cases(ctx, rng, n):
                 node = ['map', [[N.s_str('k'), node]], S_MAP]
             run_case(ctx, lone, node, rng.choice(['block', 'flow']),
                      rng.getrandbits(32), only='extra_classes')
+
+
+def bool_union_cases(ctx, rng):
+    """Unions in which bool meets types that also accept a boolean-looking
+    scalar (an enum, a class recognising any scalar): adding bool_union_fix
+    must not change the outcome."""
+    E = {'name': 'Tri', 'kind': 'enum', 'members': ['true', 'false', 'maybe']}
+    Sany = {'name': 'AnyScalar', 'kind': 'plain',
+            'params': [{'name': 'v', 'type': 'any', 'default': None}],
+            'recognize': ['scalar', []],
+            'savorize': [['scalar_to_mapping', ['v'], '\x00']]}
+    A = {'name': 'Holder', 'kind': 'plain', 'params': [
+        {'name': 'flag', 'type': ['union', 'bool', ['cls', 'Tri']]}]}
+    types = [['union', 'bool', ['cls', 'Tri']],
+             ['union', ['cls', 'Tri'], 'bool'],
+             ['union', 'bool', 'int', ['cls', 'Tri']],
+             ['union', 'int', 'bool', 'str'],
+             ['list', ['union', 'bool', ['cls', 'Tri']]],
+             ['opt', 'bool'], ['cls', 'Holder'],
+             ['union', 'bool', ['cls', 'AnyScalar']]]
+    docs = [N_s('x'), ['s', 'tag:yaml.org,2002:bool', 'true'],
+            ['s', 'tag:yaml.org,2002:bool', 'False'],
+            ['s', 'tag:yaml.org,2002:int', '1'], N_s('maybe'), N_s('true'),
+            ['s', 'tag:yaml.org,2002:null', 'null']]
+    k = 0
+    for t in types:
+        spec = {'classes': [E, Sany, A], 'doc_type': t, 'profile': 'boolu'}
+        for d in docs:
+            k += 1
+            if not ctx.mine(k):
+                continue
+            node = d
+            if t[0] == 'list':
+                node = ['seq', [d, d], S_SEQ]
+            elif t == ['cls', 'Holder']:
+                node = ['map', [[N_s('flag'), d]], S_MAP]
+            ctx.count('bool_union_family_cases')
+            run_case(ctx, spec, node, 'block', k, only='bool_fix')
+            run_case(ctx, spec, node, 'flow', k, only='extra_classes')
 
 
 def no_class_cases(ctx, rng, n):
@@ -380,7 +439,7 @@ def no_class_cases(ctx, rng, n):
                          finite=True, dates=False)
         tree = D.spec_of(v)
         n_out = [0]
-        tree = c04.decorate(tree, rng, ['Thing'], n_out)
+        tree = c04.decorate(tree, rng, ['Thing', 'ZUnrelatedA', 'ZUnrelatedA'], n_out)
         if dt != 'any':
             if dt[0] == 'list':
                 tree = ['seq', [tree], S_SEQ]
@@ -400,6 +459,7 @@ def N_s(v):
 
 
 S_SEQ = 'tag:yaml.org,2002:seq'
+S_INT = 'tag:yaml.org,2002:int'
 S_MAP = 'tag:yaml.org,2002:map'
 
 
